@@ -87,3 +87,76 @@ Print Assumptions C03_raw.
 Print Assumptions C03_header_option_local.
 Print Assumptions C03_force_option_off.
 Print Assumptions C03_wire_11_decodes.
+
+(* ---- every operation's content, the force-self-closing option (NcExtraLemmas) ---- *)
+From Scrapli Require NcExtraLemmas.
+
+Theorem C03_copy_config : forall s t, op_payload (OCopyConfig s t)
+  = BOk (elem (bs "copy-config") [] (datastore (bs "target") t ++ datastore (bs "source") s)).
+Proof. exact NcExtraLemmas.copy_config_content. Qed.
+Theorem C03_delete_config : forall t, op_payload (ODeleteConfig t) = BOk (elem (bs "delete-config") [] (datastore (bs "target") t)).
+Proof. exact NcExtraLemmas.delete_config_content. Qed.
+Theorem C03_lock : forall t, op_payload (OLock t) = BOk (elem (bs "lock") [] (datastore (bs "target") t)).
+Proof. exact NcExtraLemmas.lock_content. Qed.
+Theorem C03_unlock : forall t, op_payload (OUnlock t) = BOk (elem (bs "unlock") [] (datastore (bs "target") t)).
+Proof. exact NcExtraLemmas.unlock_content. Qed.
+Theorem C03_validate : forall s, op_payload (OValidate s) = BOk (elem (bs "validate") [] (datastore (bs "source") s)).
+Proof. exact NcExtraLemmas.validate_content. Qed.
+Theorem C03_discard : op_payload ODiscard = BOk (elem (bs "discard-changes") [] []).
+Proof. exact NcExtraLemmas.discard_content. Qed.
+
+(* get: the filter appears as subtree content or as an (escaped) xpath select attribute; an unknown
+   filter type is a build error and nothing is sent *)
+Theorem C03_get : forall f ft,
+  ((f = [] \/ ft = []) -> op_payload (OGet f ft) = BOk (elem (bs "get") [] [])) /\
+  (f <> [] -> ft = ncd_filter_subtree ->
+     op_payload (OGet f ft) = BOk (elem (bs "get") [] (elem (bs "filter") (attr (bs "type") ft) f))) /\
+  (f <> [] -> ft = ncd_filter_xpath ->
+     op_payload (OGet f ft) = BOk (elem (bs "get") [] (elem (bs "filter") (attr (bs "type") ft ++ attr (bs "select") f) []))) /\
+  (f <> [] -> ft <> [] -> ft <> ncd_filter_subtree -> ft <> ncd_filter_xpath -> op_payload (OGet f ft) = BErr).
+Proof. exact NcExtraLemmas.get_content. Qed.
+
+Theorem C03_get_config_full : forall s f dt, f <> [] -> dt <> [] -> In dt ncd_defaults_types ->
+  op_payload (OGetConfig s f ncd_filter_subtree dt)
+  = BOk (elem (bs "get-config") [] (datastore (bs "source") s
+         ++ elem (bs "filter") (attr (bs "type") ncd_filter_subtree) f
+         ++ elem (bs "with-defaults") (attr (bs "xmlns") ncd_default_namespace) dt)).
+Proof. exact NcExtraLemmas.get_config_subtree_defaults. Qed.
+
+Theorem C03_commit : forall c tmo p pid, op_payload (OCommit c tmo p pid)
+  = BOk (elem (bs "commit") []
+      ((if c then elem (bs "confirmed") [] [] else [])
+       ++ (if 0 <? tmo then elem (bs "confirm-timeout") [] (print_dec tmo) else [])
+       ++ (match p with [] => [] | _ => elem (bs "persist") [] (xml_escape p) end)
+       ++ (match pid with [] => [] | _ => elem (bs "persist-id") [] (xml_escape pid) end))).
+Proof. exact NcExtraLemmas.commit_content. Qed.
+
+(* whatever the operation: the message is declaration? ++ the rpc element around exactly the payload *)
+Theorem C03_every_payload_in_rpc : forall o v xh id p, op_payload o = BOk p ->
+  ser_raw (serialize v false xh id p) = (if xh then [] else ncd_xml_header) ++ rpc_xml id p /\
+  rpc_xml id p = elem (bs "rpc") (attr (bs "xmlns") ncd_base_namespace ++ attr (bs "message-id") (print_dec id)) p.
+Proof. exact NcExtraLemmas.every_payload_in_rpc. Qed.
+
+(* forcing self-closing tags is exactly the rewriting of the message that is sent without it, and
+   a message without an empty element pair is sent unchanged *)
+Theorem C03_force_option_local : forall v xh id p,
+  ser_raw (serialize v true xh id p) = force_self_closing (ser_raw (serialize v false xh id p)) /\
+  ser_framed (serialize v true xh id p) = frame v (force_self_closing (ser_raw (serialize v false xh id p))).
+Proof. exact NcExtraLemmas.force_option_local. Qed.
+Theorem C03_force_option_noop : forall v xh id p,
+  rx_match rx_ncd_emptyTags (ser_raw (serialize v false xh id p)) = false ->
+  serialize v true xh id p = serialize v false xh id p.
+Proof. exact NcExtraLemmas.force_option_noop. Qed.
+
+Print Assumptions C03_copy_config.
+Print Assumptions C03_delete_config.
+Print Assumptions C03_lock.
+Print Assumptions C03_unlock.
+Print Assumptions C03_validate.
+Print Assumptions C03_discard.
+Print Assumptions C03_get.
+Print Assumptions C03_get_config_full.
+Print Assumptions C03_commit.
+Print Assumptions C03_every_payload_in_rpc.
+Print Assumptions C03_force_option_local.
+Print Assumptions C03_force_option_noop.
